@@ -19,6 +19,7 @@ import (
 	pgeneric "github.com/cloudwego/dynamicgo/proto/generic"
 	"github.com/cloudwego/dynamicgo/proto/protowire"
 	"github.com/cloudwego/dynamicgo/thrift"
+	"github.com/cloudwego/dynamicgo/thrift/base"
 	"github.com/cloudwego/dynamicgo/thrift/generic"
 )
 
@@ -88,6 +89,8 @@ func touch(v interface{}, depth int) {
 type c06ctx struct {
 	tmsgs  []*tmsg
 	pmsgs  []*pmsg
+	bmsgs  []*tmsg  // messages with a base.BaseResp field, descriptors parsed with EnableThriftBase
+	t2jb   t2j.BinaryConv
 	tjson  [][]byte // JSON of thrift message i (t2j of the valid message)
 	pjson  [][]byte
 	topts  []*generic.Options
@@ -330,6 +333,12 @@ var c06eps = []c06ep{
 		_, e := c.t2j.Do(c.bg, c.tmsgs[j.in.msg].desc, in)
 		return e
 	}},
+	{"t2j.base", func(c *c06ctx, j c06job, in []byte) error {
+		// conv/t2j with thrift base extraction: the base.BaseResp field goes through readResponseBase
+		ctx := context.WithValue(c.bg, conv.CtxKeyThriftRespBase, base.NewBaseResp())
+		_, e := c.t2jb.Do(ctx, c.bmsgs[j.in.msg].desc, in)
+		return e
+	}},
 	{"j2t", func(c *c06ctx, j c06job, in []byte) error {
 		_, e := c.j2t.Do(c.bg, c.tmsgs[j.in.msg].desc, in)
 		return e
@@ -467,6 +476,12 @@ func buildC06Ctx(r *rng, nT, nP int) *c06ctx {
 	c.pmsgs = genProtoMsgs(r.fork(), nP)
 	c.topts = []*generic.Options{{}, {UseNativeSkip: true}, {StoreChildrenById: true}, {StoreChildrenByHash: true, MapStructById: true}}
 	c.t2j = t2j.NewBinaryConv(conv.Options{})
+	c.t2jb = t2j.NewBinaryConv(conv.Options{EnableThriftBase: true})
+	for br := r.fork(); len(c.bmsgs) < nT/6+2; {
+		if m, _ := c06BaseMsg(br.fork()); m != nil && len(m.buf) <= 400 {
+			c.bmsgs = append(c.bmsgs, m)
+		}
+	}
 	c.j2t = j2t.NewBinaryConv(conv.Options{})
 	c.p2j = p2j.NewBinaryConv(conv.Options{})
 	c.j2p = j2p.NewBinaryConv(conv.Options{})
@@ -494,7 +509,7 @@ func buildC06Jobs(r *rng, tier string) ([]c06job, *c06ctx) {
 	add := func(ep string, in c06input, param int, _ string) {
 		j := c06job{ep: epIndex(ep), in: in, param: param}
 		switch {
-		case strings.HasPrefix(ep, "thrift.") || strings.HasPrefix(ep, "generic.") || ep == "t2j":
+		case strings.HasPrefix(ep, "thrift.") || strings.HasPrefix(ep, "generic.") || ep == "t2j" || ep == "t2j.base":
 			j.flags = c06Flags(ep, in.b, jobType(j))
 		case strings.HasPrefix(ep, "proto") || strings.HasPrefix(ep, "pgeneric.") || ep == "p2j":
 			j.flags = c06PFlags(ep, in.b, param)
@@ -551,6 +566,11 @@ func buildC06Jobs(r *rng, tier string) ([]c06job, *c06ctx) {
 					add(ep, in, int(sub.T.K)|rr.intn(8)<<8, c06Flags(ep, in.b, sub.T.K))
 				}
 			}
+		}
+	}
+	for mi, m := range c.bmsgs {
+		for _, in := range thriftVariants(rr, mi, m, maxTrunc, budget+2) {
+			add("t2j.base", in, 0, "")
 		}
 	}
 	// nesting around the depth limit, every declared type on random bytes
